@@ -10,7 +10,7 @@
 From Coq Require Import List Arith Lia ZArith Bool QArith Qcanon.
 Import ListNotations.
 From PGV Require Import BasisCoxDeBoor FindSpan CubicUniform Sums SplineModel SplineTheory SplineQc
-  AdvCommon FluxAdv VParAdv ParGrad AdvQc.
+  InterpModel InterpTheory AdvCommon FluxAdv VParAdv ParGrad AdvInterp AdvQc.
 
 (** what is written at a node whose foot is v: the interpolant at the foot when vMin <= v <= vMax (all three modes); outside: f_eq(r, foot) / 0 / the interpolant at a periodic image lying in [vMin, vMax] *)
 Theorem c11_vpar_formula :
@@ -88,6 +88,49 @@ Theorem c11_zero_speed_id :
 Proof. exact vp_zero_speed_id. Qed.
 Print Assumptions c11_zero_speed_id.
 
+(* ---- interpolate-then-operate: composed with C08 (AdvInterp.v) ---- *)
+
+(** VParallelAdvection.step = compute_interpolant (C08: ip_interp1d) on the old nodal values, then the evaluation step; with c*dt = 0 the nodal values are returned unchanged in each of the three modes (no interpolation hypothesis left; [ip_spans_in_range] is vacuous on clamped spaces) *)
+Theorem c11_interp_then_zero_speed_id :
+  forall (F : Type) (K : sp_ops F),
+  sp_laws K ->
+  forall (cu : bool) (knots : list F) (deg : nat) (periodic : bool) (points f coeffs : list F)
+  (dt c rPos CN0 kN0 dRN0 rp CTi kTi dRTi : F) (X : vp_ext F) (bound : Z),
+  let nb := ip_nbasis F K knots deg periodic cu in
+  bound = 0%Z \/ bound = 1%Z \/ bound = 2%Z ->
+  spmul K c dt = sp0 K ->
+  length points = nb ->
+  length f = nb ->
+  (0 < nb)%nat ->
+  (forall i : nat,
+  (i < nb)%nat ->
+  sp_le K (nth 0 points (sp0 K)) (nth i points (sp0 K)) /\ sp_le K (nth i points (sp0 K)) (last points (sp0 K))) ->
+  ip_spans_in_range F K knots deg periodic cu points ->
+  ip_interp1d F K knots deg periodic cu points f = SpOk coeffs ->
+  vp_step F K X f points dt c rPos knots deg coeffs CN0 kN0 dRN0 rp CTi kTi dRTi bound cu = SpOk f.
+Proof. exact ai_vp_interp_then_zero_speed_id. Qed.
+Print Assumptions c11_interp_then_zero_speed_id.
+
+(** any shift: a node whose foot is again an interpolation point lying in [vMin, vMax] receives the old nodal value of that point.  This is the exact content of 'a shift by a whole number of uniform cells moves nodal values': it holds for the nodes of the uniform part of the grid; on a clamped cubic space the Greville points next to the ends (a + h/3, b - h/3) are off the lattice a + k*h, their feet are not nodes, so no whole-vector shift statement is true *)
+Theorem c11_interp_then_foot_on_node :
+  forall (F : Type) (K : sp_ops F),
+  sp_laws K ->
+  forall (cu : bool) (knots : list F) (deg : nat) (periodic : bool) (points u coeffs : list F)
+  (feq : F -> sp_res F) (bound : Z) (vMin vMax : F) (f vPts g : list F) (i j : nat),
+  let nb := ip_nbasis F K knots deg periodic cu in
+  bound = 0%Z \/ bound = 1%Z \/ bound = 2%Z ->
+  ip_spans_in_range F K knots deg periodic cu points ->
+  ip_interp1d F K knots deg periodic cu points u = SpOk coeffs ->
+  vp_loop F K (adv_ev F K cu knots deg coeffs) feq bound vMin vMax f vPts = SpOk g ->
+  length f = length vPts ->
+  (i < length vPts)%nat ->
+  (j < nb)%nat ->
+  nth i vPts (sp0 K) = nth j points (sp0 K) ->
+  sp_le K vMin (nth j points (sp0 K)) ->
+  sp_le K (nth j points (sp0 K)) vMax -> nth i g (sp0 K) = nth j u (sp0 K).
+Proof. exact ai_vp_foot_on_node. Qed.
+Print Assumptions c11_interp_then_foot_on_node.
+
 Theorem c11_qc_instance : sp_laws spq_ops /\ adv_trunc_ok Qc spq_ops.
 Proof. exact (conj spq_laws advq_trunc_ok). Qed.
 Print Assumptions c11_qc_instance.
@@ -110,3 +153,28 @@ Example c11_ex_modes :
   /\ spq_show_res (vpq_wrap (spq_of (-23) 2) (spq_of (-3) 1) (spq_of 3 1)) = SpOk (1%Z, 2%positive)
   /\ vp_up Qc spq_ops 50 (spq_of (-1) 1) (spq_of 0 1) (spq_of 0 1 - spq_of 0 1)%Qc = SpFuelErr.
 Proof. vm_compute. repeat split. eexists. reflexivity. Qed.
+
+(* ---- non-vacuity of the interpolate-then-step theorems: clamped uniform cubic on [-3, 3], 4 cells, Greville points ---- *)
+Definition c11_ex_nodes : list Qc := map (fun t => spq_of t 2) [-6; -5; -3; 0; 3; 5; 6]%Z.
+Definition c11_ex_f : list Qc := map (fun t => spq_of t 3) [2; -1; 4; 7; 0; 5; 1]%Z.
+Example c11_ex_interp_then_zero_speed :
+  match ip_interp1d Qc spq_ops c11_ex_knots 3 false true c11_ex_nodes c11_ex_f with
+  | SpOk c =>
+      (forall b, In b [0; 1; 2]%Z ->
+         spq_show_list (vpq_step c11_ex_f c11_ex_nodes (spq_of 0 1) (spq_of 7 3) (spq_of 1 2) c11_ex_knots 3 c
+                          (spq_of 1 1) (spq_of 1 10) (spq_of 1 5) (spq_of 1 2) (spq_of 1 1) (spq_of 1 4) (spq_of 1 10) b true)
+         = spq_show_list (SpOk c11_ex_f))
+      (* a shift by one cell (3/2): the nodes 0, 3/2 of the uniform part receive the old values of -3/2, 0;
+         the Greville point -5/2 next to the end has its foot -4 outside, 5/2 has its foot 1 off the nodes *)
+      /\ match vpq_step c11_ex_f c11_ex_nodes (spq_of 1 1) (spq_of 3 2) (spq_of 1 2) c11_ex_knots 3 c
+                         (spq_of 1 1) (spq_of 1 10) (spq_of 1 5) (spq_of 1 2) (spq_of 1 1) (spq_of 1 4) (spq_of 1 10) 1 true with
+         | SpOk g => spq_show (nth 3 g (Q2Qc 0)) = spq_show (nth 2 c11_ex_f (Q2Qc 0))
+                     /\ spq_show (nth 4 g (Q2Qc 0)) = spq_show (nth 3 c11_ex_f (Q2Qc 0))
+                     /\ spq_show (nth 5 g (Q2Qc 0)) <> spq_show (nth 4 c11_ex_f (Q2Qc 0))
+         | _ => False end
+  | _ => False end.
+Proof.
+  vm_compute. split.
+  - intros b [<-|[<-|[<-|[]]]]; reflexivity.
+  - split; [reflexivity|split; [reflexivity|discriminate]].
+Qed.
